@@ -32,7 +32,12 @@ def _explore(spec):
         from pyvc.verifier import Engine
         from pyvc.engine import Unsupported
         C = getattr(importlib.import_module(mod), cls)
-        c = C()
+        try:
+            c = C()      # contracts check the shape of the real source when they are built
+        except Unsupported as e:
+            out["unsupported"] = str(e)
+            out["target"] = getattr(C, "target", f"{mod}.{cls}")
+            return out
         eng = Engine()
         try:
             fn, node, obs, outcomes, stats = eng.verify(c)
